@@ -688,6 +688,19 @@ func (s *Sim) StepBack(d time.Duration) {
 	s.Logf("clock", "stepped back %s to %s", d, s.now.UTC().Format(time.RFC3339Nano))
 }
 
+// StepForward moves the wall clock ahead by d without letting that time pass for
+// the timers (the machine was suspended and resumed: timers run on the
+// monotonic clock, which stands still meanwhile, so they keep their distance
+// from now and their wall-clock deadlines move ahead with it).
+func (s *Sim) StepForward(d time.Duration) {
+	s.now = s.now.Add(d)
+	s.SimTime += d
+	for _, tm := range s.timers {
+		tm.at = tm.at.Add(d)
+	}
+	s.Logf("clock", "stepped forward %s to %s (timers keep their distance)", d, s.now.UTC().Format(time.RFC3339Nano))
+}
+
 // SetClock sets the clock to an arbitrary instant (used between sessions).
 func (s *Sim) SetClock(t time.Time) {
 	if t.After(s.now) {
